@@ -75,14 +75,19 @@ def classCode (c : Option UInt8 × Bool × Bool) : Nat :=
   | (none, _, true) => 512
   | (none, _, false) => 513
 
-/-- the decidable comparison: same sequence arms (spelled identically, in order), same resolution -/
-def armsAgree (tbl : Table) (arms exp : List Arm) : Bool :=
+/-- same sequence arms (spelled identically, in order), same resolution -/
+def armsResolveAlike (tbl : Table) (arms exp : List Arm) : Bool :=
   (arms.filter Arm.isSeq == exp.filter Arm.isSeq) &&
   classes.all fun c => pick tbl c.2.1 c.2.2 c.1 arms == pick tbl c.2.1 c.2.2 c.1 exp
+
+/-- the decidable comparison: the arm lists are equal (the cheap case), or they resolve alike -/
+def armsAgree (tbl : Table) (arms exp : List Arm) : Bool :=
+  arms == exp || armsResolveAlike tbl arms exp
 
 /-- `none` = they agree; 3000 = the sequence arms differ; otherwise the code of the first input class
 that resolves differently -/
 def armsWitness (tbl : Table) (arms exp : List Arm) : Option Nat :=
+  if arms == exp then none else
   if arms.filter Arm.isSeq != exp.filter Arm.isSeq then some 3000
   else (classes.find? fun c => pick tbl c.2.1 c.2.2 c.1 arms != pick tbl c.2.1 c.2.2 c.1 exp).map classCode
 
@@ -123,9 +128,9 @@ theorem mem_classes_none (il : Bool) : ((none : Option UInt8), false, il) ∈ cl
   cases il <;> simp
 
 /-- the check covers every register state and input -/
-theorem pick_of_armsAgree {tbl : Table} {arms exp : List Arm} (h : armsAgree tbl arms exp = true)
+theorem pick_of_armsAgree {tbl : Table} {arms exp : List Arm} (h : armsResolveAlike tbl arms exp = true)
     (cqm il : Bool) (ch : Option UInt8) : pick tbl cqm il ch arms = pick tbl cqm il ch exp := by
-  unfold armsAgree at h
+  unfold armsResolveAlike at h
   simp only [Bool.and_eq_true, List.all_eq_true, beq_iff_eq] at h
   cases ch with
   | some x =>
@@ -204,9 +209,13 @@ theorem dispatch_resolved (env : Env κ) (inp : Bytes) (ch : Option UInt8) (arms
 
 theorem dispatch_of_armsAgree {env : Env κ} {arms exp : List Arm} (h : armsAgree env.tbl arms exp = true)
     (inp : Bytes) (ch : Option UInt8) (m : M κ) : dispatch env inp ch arms m = dispatch env inp ch exp m := by
+  unfold armsAgree at h
+  rw [Bool.or_eq_true] at h
+  rcases h with h | h
+  · rw [beq_iff_eq] at h; rw [h]
   rw [dispatch_resolved, dispatch_resolved]
   have hseq : arms.filter Arm.isSeq = exp.filter Arm.isSeq := by
-    unfold armsAgree at h
+    unfold armsResolveAlike at h
     simp only [Bool.and_eq_true, beq_iff_eq] at h
     exact h.1
   rw [hseq]
@@ -250,5 +259,23 @@ theorem state_of_matches {t : Table} {e : Nat × StateKey} (h : stateMatches t e
     intro κ env henv inp ch m
     subst henv
     exact dispatch_of_armsAgree h.2 inp ch m
+
+/-! ### table mutations, for the regression examples of the side-conditions -/
+
+/-- apply `f` to the arm list of state `s` -/
+def Table.modArms (t : Table) (s : Nat) (f : List Arm → List Arm) : Table :=
+  { t with states := t.states.modify s (fun sd => { sd with arms := f sd.arms }) }
+
+/-- arms `i` and `j` change places -/
+def swapArms (i j : Nat) (l : List Arm) : List Arm :=
+  match l[i]?, l[j]? with
+  | some a, some b => (l.set i b).set j a
+  | _, _ => l
+
+/-- arms `i` and `j` keep their patterns and exchange their bodies -/
+def swapBodies (i j : Nat) (l : List Arm) : List Arm :=
+  match l[i]?, l[j]? with
+  | some a, some b => (l.set i { a with body := b.body }).set j { b with body := a.body }
+  | _, _ => l
 
 end LolHtml.Model
